@@ -10,7 +10,7 @@
      (the error terms are bounded by the matrix entries).  Used twice: single precision phase →
      128-bit values (K = 2^32), and 128-bit values → the full numbers (K = B^(n-2)).
    * `hgcd2Loop_post`: the four program points keep their invariants and every exit yields `Post`:
-     M·(x; y) = (A₀; B₀) exactly for some x, y ≥ 3·2^63, without any wrap-around of the entries.
+     M·(x; y) = (A₀; B₀) exactly for some x, y ≥ 3·2^63, row sums of M below 2^63 (no wrap-around).
    * `top2_spec`: the normalised top two limbs are ⌊a·2^s / B^(n-2)⌋.
 -/
 import MpirProofs.Lemmas.GcdLehmer2
@@ -157,10 +157,11 @@ theorem mrel_inverse {m : M1} {x y X Y : Nat} (h : MRel m x y X Y) :
 def NonId (m : M1) : Prop := m.u01 ≠ 0 ∨ m.u10 ≠ 0
 
 /-- what every `return 1` of mpn_hgcd2 guarantees for the 128-bit inputs (A0, B0): the matrix has
-    determinant 1, is not the identity, and M·(x; y) = (A0; B0) EXACTLY for naturals x, y ≥ 3·2^63
-    (so no entry ever wrapped around). -/
+    determinant 1, is not the identity, M·(x; y) = (A0; B0) EXACTLY for naturals x, y ≥ 3·2^63, and
+    the row sums are below 2^63 (entries fit GMP_LIMB_BITS - 1 bits; in particular none ever wrapped). -/
 def Post (A0 B0 : Nat) (m : M1) : Prop :=
-  ∃ x y, MRel m x y A0 B0 ∧ 3 * 2 ^ 63 ≤ x ∧ 3 * 2 ^ 63 ≤ y ∧ NonId m
+  ∃ x y, MRel m x y A0 B0 ∧ 3 * 2 ^ 63 ≤ x ∧ 3 * 2 ^ 63 ≤ y ∧ NonId m ∧
+    m.u00 + m.u01 < 2 ^ 63 ∧ m.u10 + m.u11 < 2 ^ 63
 
 /-- double precision loop: (a; b) = M⁻¹(A0; B0) exactly, both at least two limbs + 1 bit -/
 def DInv (A0 B0 a b : Nat) (m : M1) : Prop :=
@@ -179,43 +180,78 @@ def HInv (A0 B0 : Nat) : HPt → Nat → Nat → M1 → Prop
   | .sA, a, b, m => SInv A0 B0 a b m ∧ b ≤ a
   | .sB, a, b, m => SInv A0 B0 a b m ∧ a ≤ b
 
-theorem dinv_post {A0 B0 a b : Nat} {m : M1} (h : DInv A0 B0 a b m) : Post A0 B0 m := by
+theorem dinv_post {A0 B0 a b : Nat} {m : M1} (hA : A0 < B * B) (hB : B0 < B * B)
+    (h : DInv A0 B0 a b m) : Post A0 B0 m := by
   obtain ⟨hr, ha, hb, hn⟩ := h
-  refine ⟨a, b, hr, ?_, ?_, hn⟩ <;> (simp only [B_eq] at ha hb; omega)
+  obtain ⟨e1, e2⟩ := mrel_entries_lt (L := 2 ^ 63) hr ha hb (by rw [B_eq] at hA ⊢; omega) (by rw [B_eq] at hB ⊢; omega)
+  refine ⟨a, b, hr, ?_, ?_, hn, e1, e2⟩ <;> (simp only [B_eq] at ha hb; omega)
 
-theorem sinv_post {A0 B0 as bs : Nat} {m : M1} (h : SInv A0 B0 as bs m) : Post A0 B0 m := by
+/-- row sums of M₁·N: (n00 + n01)·2^65 ≤ a1 and (n10 + n11)·2^65 ≤ b1 because the truncated single
+    precision values never drop below 2^33 -/
+theorem sinv_rows {m1 n : M1} {a1 b1 as bs A0 B0 : Nat} (hA : A0 < B * B) (hB : B0 < B * B)
+    (hr1 : MRel m1 a1 b1 A0 B0) (hrn : MRel n as bs (a1 / 2 ^ 32) (b1 / 2 ^ 32))
+    (has : 2 ^ 33 ≤ as) (hbs : 2 ^ 33 ≤ bs) :
+    (mmul m1 n).u00 + (mmul m1 n).u01 < 2 ^ 63 ∧ (mmul m1 n).u10 + (mmul m1 n).u11 < 2 ^ 63 := by
+  obtain ⟨_, eS, eT⟩ := hrn
+  obtain ⟨_, eA, eB⟩ := hr1
+  have sa : 2 ^ 65 * (n.u00 + n.u01) ≤ a1 := by
+    have h1 : 2 ^ 33 * n.u00 ≤ n.u00 * as := by rw [Nat.mul_comm]; exact Nat.mul_le_mul_left _ has
+    have h2 : 2 ^ 33 * n.u01 ≤ n.u01 * bs := by rw [Nat.mul_comm]; exact Nat.mul_le_mul_left _ hbs
+    omega
+  have sb : 2 ^ 65 * (n.u10 + n.u11) ≤ b1 := by
+    have h1 : 2 ^ 33 * n.u10 ≤ n.u10 * as := by rw [Nat.mul_comm]; exact Nat.mul_le_mul_left _ has
+    have h2 : 2 ^ 33 * n.u11 ≤ n.u11 * bs := by rw [Nat.mul_comm]; exact Nat.mul_le_mul_left _ hbs
+    omega
+  rw [B_eq] at hA hB
+  constructor
+  · show m1.u00 * n.u00 + m1.u01 * n.u10 + (m1.u00 * n.u01 + m1.u01 * n.u11) < 2 ^ 63
+    have h1 : m1.u00 * (2 ^ 65 * (n.u00 + n.u01)) ≤ m1.u00 * a1 := Nat.mul_le_mul_left _ sa
+    have h2 : m1.u01 * (2 ^ 65 * (n.u10 + n.u11)) ≤ m1.u01 * b1 := Nat.mul_le_mul_left _ sb
+    have e : 2 ^ 65 * (m1.u00 * n.u00 + m1.u01 * n.u10 + (m1.u00 * n.u01 + m1.u01 * n.u11))
+        = m1.u00 * (2 ^ 65 * (n.u00 + n.u01)) + m1.u01 * (2 ^ 65 * (n.u10 + n.u11)) := by ring
+    omega
+  · show m1.u10 * n.u00 + m1.u11 * n.u10 + (m1.u10 * n.u01 + m1.u11 * n.u11) < 2 ^ 63
+    have h1 : m1.u10 * (2 ^ 65 * (n.u00 + n.u01)) ≤ m1.u10 * a1 := Nat.mul_le_mul_left _ sa
+    have h2 : m1.u11 * (2 ^ 65 * (n.u10 + n.u11)) ≤ m1.u11 * b1 := Nat.mul_le_mul_left _ sb
+    have e : 2 ^ 65 * (m1.u10 * n.u00 + m1.u11 * n.u10 + (m1.u10 * n.u01 + m1.u11 * n.u11))
+        = m1.u10 * (2 ^ 65 * (n.u00 + n.u01)) + m1.u11 * (2 ^ 65 * (n.u10 + n.u11)) := by ring
+    omega
+
+theorem sinv_post {A0 B0 as bs : Nat} {m : M1} (hA : A0 < B * B) (hB : B0 < B * B)
+    (h : SInv A0 B0 as bs m) : Post A0 B0 m := by
   obtain ⟨m1, n, a1, b1, hr1, ha1, hb1, hrn, rfl, has, hbs, hn⟩ := h
+  obtain ⟨r1, r2⟩ := sinv_rows hA hB hr1 hrn has hbs
   have hS : a1 / 2 ^ 32 < 2 ^ 31 * 2 ^ 33 := by omega
   have hT : b1 / 2 ^ 32 < 2 ^ 31 * 2 ^ 33 := by omega
   obtain ⟨e1, e2⟩ := mrel_entries_lt hrn has hbs hS hT
   obtain ⟨x, y, hxy, hx, hy, _, _⟩ := trunc_lift (2 ^ 32) (a1 % 2 ^ 32) (b1 % 2 ^ 32) hrn
     (le_of_lt (Nat.mod_lt _ (by norm_num))) (le_of_lt (Nat.mod_lt _ (by norm_num))) (by omega) (by omega)
   rw [Nat.div_add_mod, Nat.div_add_mod] at hxy
-  refine ⟨x, y, mrel_comp hr1 hxy, ?_, ?_, hn⟩
+  refine ⟨x, y, mrel_comp hr1 hxy, ?_, ?_, hn, r1, r2⟩
   · have : 2 ^ 32 * (2 ^ 33 - 2 ^ 31) ≤ 2 ^ 32 * (as - n.u01) := Nat.mul_le_mul_left _ (by omega)
     omega
   · have : 2 ^ 32 * (2 ^ 33 - 2 ^ 31) ≤ 2 ^ 32 * (bs - n.u10) := Nat.mul_le_mul_left _ (by omega)
     omega
 
-theorem post_entries {A0 B0 : Nat} {m : M1} (hA : A0 < B * B) (hB : B0 < B * B) (h : Post A0 B0 m) :
+theorem post_entries {A0 B0 : Nat} {m : M1} (h : Post A0 B0 m) :
     m.u00 + m.u01 < B ∧ m.u10 + m.u11 < B := by
-  obtain ⟨x, y, hr, hx, hy, _⟩ := h
-  exact mrel_entries_lt hr (by rw [B_eq]; omega) (by rw [B_eq]; omega) hA hB
+  obtain ⟨x, y, _, _, _, _, r1, r2⟩ := h
+  rw [B_eq]; omega
 
 /-- the C's wrapping update of the second column is the exact one -/
-theorem updA_eq {A0 B0 : Nat} {m : M1} {q : Nat} (hA : A0 < B * B) (hB : B0 < B * B)
+theorem updA_eq {A0 B0 : Nat} {m : M1} {q : Nat}
     (h : Post A0 B0 ⟨m.u00, m.u01 + q * m.u00, m.u10, m.u11 + q * m.u10⟩) :
     ({ m with u01 := (m.u01 + q * m.u00) % B, u11 := (m.u11 + q * m.u10) % B } : M1)
       = ⟨m.u00, m.u01 + q * m.u00, m.u10, m.u11 + q * m.u10⟩ := by
-  obtain ⟨e1, e2⟩ := post_entries hA hB h
+  obtain ⟨e1, e2⟩ := post_entries h
   simp only at e1 e2
   rw [Nat.mod_eq_of_lt (by omega), Nat.mod_eq_of_lt (by omega)]
 
-theorem updB_eq {A0 B0 : Nat} {m : M1} {q : Nat} (hA : A0 < B * B) (hB : B0 < B * B)
+theorem updB_eq {A0 B0 : Nat} {m : M1} {q : Nat}
     (h : Post A0 B0 ⟨m.u00 + q * m.u01, m.u01, m.u10 + q * m.u11, m.u11⟩) :
     ({ m with u00 := (m.u00 + q * m.u01) % B, u10 := (m.u10 + q * m.u11) % B } : M1)
       = ⟨m.u00 + q * m.u01, m.u01, m.u10 + q * m.u11, m.u11⟩ := by
-  obtain ⟨e1, e2⟩ := post_entries hA hB h
+  obtain ⟨e1, e2⟩ := post_entries h
   simp only at e1 e2
   rw [Nat.mod_eq_of_lt (by omega), Nat.mod_eq_of_lt (by omega)]
 
@@ -306,13 +342,12 @@ section loop
 variable {A0 B0 : Nat} (hA : A0 < B * B) (hB : B0 < B * B)
 include hA hB
 
-omit hA hB in
 theorem hinv_post {pt : HPt} {a b : Nat} {m : M1} (h : HInv A0 B0 pt a b m) : Post A0 B0 m := by
   cases pt
-  · exact dinv_post h.1
-  · exact dinv_post h.1
-  · exact sinv_post h.1
-  · exact sinv_post h.1
+  · exact dinv_post hA hB h.1
+  · exact dinv_post hA hB h.1
+  · exact sinv_post hA hB h.1
+  · exact sinv_post hA hB h.1
 
 theorem loop_dA {f a b : Nat} {m : M1}
     (ih : ∀ pt a b m, HInv A0 B0 pt a b m → Post A0 B0 (hgcd2Loop f pt a b m))
@@ -326,7 +361,7 @@ theorem loop_dA {f a b : Nat} {m : M1}
   unfold hgcd2Loop
   dsimp only
   by_cases e1 : a / B = b / B
-  · rw [if_pos e1]; exact dinv_post hd
+  · rw [if_pos e1]; exact dinv_post hA hB hd
   rw [if_neg e1]
   have hlt : b < a := Nat.lt_of_div_lt_div (by omega : b / B < a / B)
   by_cases e2 : a / B < HALF
@@ -337,14 +372,14 @@ theorem loop_dA {f a b : Nat} {m : M1}
       simp only [B_eq] at *; omega⟩
   rw [if_neg e2]
   by_cases e3 : (a - b) / B < 2
-  · rw [if_pos e3]; exact dinv_post hd
+  · rw [if_pos e3]; exact dinv_post hA hB hd
   rw [if_neg e3]
   have h2ab : 2 * B ≤ a - b := by simp only [B_eq] at *; omega
   by_cases e4 : (a - b) / B ≤ b / B
   · rw [if_pos e4]
     have hd1 := dinv_subA 1 hd (by omega) (by rw [Nat.one_mul]; exact h2ab)
     simp only [Nat.one_mul] at hd1
-    have hu := updA_eq (q := 1) hA hB (by simp only [Nat.one_mul]; exact dinv_post hd1)
+    have hu := updA_eq (q := 1) (by simp only [Nat.one_mul]; exact dinv_post hA hB hd1)
     simp only [Nat.one_mul] at hu
     rw [hu]
     exact ih .dB _ _ _ ⟨hd1, e4⟩
@@ -357,15 +392,15 @@ theorem loop_dA {f a b : Nat} {m : M1}
   by_cases e5 : (a - b) % b / B < 2
   · rw [if_pos e5]
     have hd1 := dinv_subA ((a - b) / b) hd f1 (by rw [f2]; exact Nat.le_trans h2b (Nat.le_add_left _ _))
-    rw [updA_eq hA hB (dinv_post hd1)]
-    exact dinv_post hd1
+    rw [updA_eq (dinv_post hA hB hd1)]
+    exact dinv_post hA hB hd1
   · rw [if_neg e5]
     have hq : (a - b) / b + 1 < B := by
       have : (a - b) / b ≤ (a - b) / (2 * B) := Nat.div_le_div_left h2b (by rw [B_eq]; norm_num)
       simp only [B_eq] at *; omega
     rw [Nat.mod_eq_of_lt hq]
     have hd1 := dinv_subA ((a - b) / b + 1) hd f3 (by rw [f4]; simp only [B_eq] at *; omega)
-    rw [updA_eq hA hB (dinv_post hd1)]
+    rw [updA_eq (dinv_post hA hB hd1)]
     rw [f4] at hd1
     exact ih .dB _ _ _ ⟨hd1, Nat.div_le_div_right (le_of_lt f5)⟩
 
@@ -381,7 +416,7 @@ theorem loop_dB {f a b : Nat} {m : M1}
   unfold hgcd2Loop
   dsimp only
   by_cases e1 : a / B = b / B
-  · rw [if_pos e1]; exact dinv_post hd
+  · rw [if_pos e1]; exact dinv_post hA hB hd
   rw [if_neg e1]
   have hlt : a < b := Nat.lt_of_div_lt_div (by omega : a / B < b / B)
   by_cases e2 : b / B < HALF
@@ -392,14 +427,14 @@ theorem loop_dB {f a b : Nat} {m : M1}
       simp only [B_eq] at *; omega⟩
   rw [if_neg e2]
   by_cases e3 : (b - a) / B < 2
-  · rw [if_pos e3]; exact dinv_post hd
+  · rw [if_pos e3]; exact dinv_post hA hB hd
   rw [if_neg e3]
   have h2ab : 2 * B ≤ b - a := by simp only [B_eq] at *; omega
   by_cases e4 : (b - a) / B ≤ a / B
   · rw [if_pos e4]
     have hd1 := dinv_subB 1 hd (by omega) (by rw [Nat.one_mul]; exact h2ab)
     simp only [Nat.one_mul] at hd1
-    have hu := updB_eq (q := 1) hA hB (by simp only [Nat.one_mul]; exact dinv_post hd1)
+    have hu := updB_eq (q := 1) (by simp only [Nat.one_mul]; exact dinv_post hA hB hd1)
     simp only [Nat.one_mul] at hu
     rw [hu]
     exact ih .dA _ _ _ ⟨hd1, e4⟩
@@ -412,15 +447,15 @@ theorem loop_dB {f a b : Nat} {m : M1}
   by_cases e5 : (b - a) % a / B < 2
   · rw [if_pos e5]
     have hd1 := dinv_subB ((b - a) / a) hd f1 (by rw [f2]; exact Nat.le_trans h2a (Nat.le_add_left _ _))
-    rw [updB_eq hA hB (dinv_post hd1)]
-    exact dinv_post hd1
+    rw [updB_eq (dinv_post hA hB hd1)]
+    exact dinv_post hA hB hd1
   · rw [if_neg e5]
     have hq : (b - a) / a + 1 < B := by
       have : (b - a) / a ≤ (b - a) / (2 * B) := Nat.div_le_div_left h2a (by rw [B_eq]; norm_num)
       simp only [B_eq] at *; omega
     rw [Nat.mod_eq_of_lt hq]
     have hd1 := dinv_subB ((b - a) / a + 1) hd f3 (by rw [f4]; simp only [B_eq] at *; omega)
-    rw [updB_eq hA hB (dinv_post hd1)]
+    rw [updB_eq (dinv_post hA hB hd1)]
     rw [f4] at hd1
     exact ih .dA _ _ _ ⟨hd1, Nat.div_le_div_right (le_of_lt f5)⟩
 
@@ -433,14 +468,14 @@ theorem loop_sA {f a b : Nat} {m : M1}
   unfold hgcd2Loop
   dsimp only
   by_cases e3 : a - b < 2 * HALF
-  · rw [if_pos e3]; exact sinv_post hs
+  · rw [if_pos e3]; exact sinv_post hA hB hs
   rw [if_neg e3]
   have h2ab : 2 ^ 33 ≤ a - b := by simp only [HALF] at e3; omega
   by_cases e4 : a - b ≤ b
   · rw [if_pos e4]
     have hs1 := sinv_subA 1 hs (by omega) (by rw [Nat.one_mul]; exact h2ab)
     simp only [Nat.one_mul] at hs1
-    have hu := updA_eq (q := 1) hA hB (by simp only [Nat.one_mul]; exact sinv_post hs1)
+    have hu := updA_eq (q := 1) (by simp only [Nat.one_mul]; exact sinv_post hA hB hs1)
     simp only [Nat.one_mul] at hu
     rw [hu]
     exact ih .sB _ _ _ ⟨hs1, e4⟩
@@ -452,15 +487,15 @@ theorem loop_sA {f a b : Nat} {m : M1}
   by_cases e5 : (a - b) % b < 2 * HALF
   · rw [if_pos e5]
     have hs1 := sinv_subA ((a - b) / b) hs f1 (by rw [f2]; omega)
-    rw [updA_eq hA hB (sinv_post hs1)]
-    exact sinv_post hs1
+    rw [updA_eq (sinv_post hA hB hs1)]
+    exact sinv_post hA hB hs1
   · rw [if_neg e5]
     have hq : (a - b) / b + 1 < B := by
       have : (a - b) / b ≤ (a - b) / 2 ^ 33 := Nat.div_le_div_left h2b (by norm_num)
       simp only [B_eq] at *; omega
     rw [Nat.mod_eq_of_lt hq]
     have hs1 := sinv_subA ((a - b) / b + 1) hs f3 (by rw [f4]; simp only [HALF] at e5; omega)
-    rw [updA_eq hA hB (sinv_post hs1)]
+    rw [updA_eq (sinv_post hA hB hs1)]
     rw [f4] at hs1
     exact ih .sB _ _ _ ⟨hs1, le_of_lt f5⟩
 
@@ -473,14 +508,14 @@ theorem loop_sB {f a b : Nat} {m : M1}
   unfold hgcd2Loop
   dsimp only
   by_cases e3 : b - a < 2 * HALF
-  · rw [if_pos e3]; exact sinv_post hs
+  · rw [if_pos e3]; exact sinv_post hA hB hs
   rw [if_neg e3]
   have h2ab : 2 ^ 33 ≤ b - a := by simp only [HALF] at e3; omega
   by_cases e4 : b - a ≤ a
   · rw [if_pos e4]
     have hs1 := sinv_subB 1 hs (by omega) (by rw [Nat.one_mul]; exact h2ab)
     simp only [Nat.one_mul] at hs1
-    have hu := updB_eq (q := 1) hA hB (by simp only [Nat.one_mul]; exact sinv_post hs1)
+    have hu := updB_eq (q := 1) (by simp only [Nat.one_mul]; exact sinv_post hA hB hs1)
     simp only [Nat.one_mul] at hu
     rw [hu]
     exact ih .sA _ _ _ ⟨hs1, e4⟩
@@ -492,15 +527,15 @@ theorem loop_sB {f a b : Nat} {m : M1}
   by_cases e5 : (b - a) % a < 2 * HALF
   · rw [if_pos e5]
     have hs1 := sinv_subB ((b - a) / a) hs f1 (by rw [f2]; omega)
-    rw [updB_eq hA hB (sinv_post hs1)]
-    exact sinv_post hs1
+    rw [updB_eq (sinv_post hA hB hs1)]
+    exact sinv_post hA hB hs1
   · rw [if_neg e5]
     have hq : (b - a) / a + 1 < B := by
       have : (b - a) / a ≤ (b - a) / 2 ^ 33 := Nat.div_le_div_left h2a (by norm_num)
       simp only [B_eq] at *; omega
     rw [Nat.mod_eq_of_lt hq]
     have hs1 := sinv_subB ((b - a) / a + 1) hs f3 (by rw [f4]; simp only [HALF] at e5; omega)
-    rw [updB_eq hA hB (sinv_post hs1)]
+    rw [updB_eq (sinv_post hA hB hs1)]
     rw [f4] at hs1
     exact ih .sA _ _ _ ⟨hs1, le_of_lt f5⟩
 
@@ -510,7 +545,7 @@ theorem hgcd2Loop_post : ∀ (f : Nat) (pt : HPt) (a b : Nat) (m : M1),
     HInv A0 B0 pt a b m → Post A0 B0 (hgcd2Loop f pt a b m)
   | 0, pt, a, b, m, h => by
     have : hgcd2Loop 0 pt a b m = m := by unfold hgcd2Loop; rfl
-    rw [this]; exact hinv_post h
+    rw [this]; exact hinv_post hA hB h
   | f + 1, .dA, a, b, m, h => loop_dA hA hB (hgcd2Loop_post f) h
   | f + 1, .dB, a, b, m, h => loop_dB hA hB (hgcd2Loop_post f) h
   | f + 1, .sA, a, b, m, h => loop_sA hA hB (hgcd2Loop_post f) h
@@ -812,7 +847,7 @@ theorem hgcd2_contract : Hgcd2Contract := by
   have hB : (top2 a b n).2.2.1 * B + (top2 a b n).2.2.2 < B * B := by
     have : ((top2 a b n).2.2.1 + 1) * B ≤ B * B := Nat.mul_le_mul_right _ t3
     rw [Nat.add_mul] at this; omega
-  have hne : NonId m := by obtain ⟨_, _, _, _, _, h⟩ := hp; exact h
+  have hne : NonId m := by obtain ⟨_, _, _, _, _, h, _⟩ := hp; exact h
   obtain ⟨x, y, hr, hx, hy⟩ := post_extend hA hB hp (B ^ (n - 2)) rx ry hrx hry
   rw [← ea, ← eb] at hr
   obtain ⟨c1, c2, c3, c4, _⟩ := contract_of_mrel hs hr hx hy (pow_pos B_pos _)
